@@ -40,6 +40,10 @@ type Prog struct {
 	needAppendAxiom map[string]bool
 	scc     map[string]int
 	rawOrder []string
+	fnTable *Term
+	fnTableNotes []string
+	sortAxioms map[string]*Sort
+	permAxioms map[string]*Sort
 }
 
 func funcDisplayName(f *ssa.Function) string {
